@@ -140,7 +140,7 @@ theorem isAlnum_refChar {x : Nat} (h : isAlnum x = true) : isRefChar x = true :=
 
 /-! ## readText -/
 
-theorem readText_skip (T : Tbl) (k : Nat) (l : PStr) : readText T k l = readText T 0 (l.drop k) := by
+theorem readText_skip (T : Tbl) (late : Bool) (k : Nat) (l : PStr) : readText T late k l = readText T late 0 (l.drop k) := by
   induction l generalizing k with
   | nil => cases k <;> simp [readText]
   | cons c cs ih =>
@@ -148,13 +148,13 @@ theorem readText_skip (T : Tbl) (k : Nat) (l : PStr) : readText T k l = readText
     | zero => simp
     | succ k => simp only [readText, List.drop_succ_cons]; exact ih k
 
-theorem readText_plain (T : Tbl) (c : Nat) (cs : PStr) (h : c ≠ 38) :
-    readText T 0 (c :: cs) = c :: readText T 0 cs := by
+theorem readText_plain (T : Tbl) (late : Bool) (c : Nat) (cs : PStr) (h : c ≠ 38) :
+    readText T late 0 (c :: cs) = c :: readText T late 0 cs := by
   simp [readText, h]
 
 /-- reading `&name;` followed by anything -/
-theorem readText_ref (T : Tbl) (name rest : PStr) (h : isName name = true) :
-    readText T 0 (ref name ++ rest) = entityRef T name ++ readText T 0 rest := by
+theorem readText_ref (T : Tbl) (late : Bool) (name rest : PStr) (h : isName name = true) :
+    readText T late 0 (ref name ++ rest) = entityRef T name ++ readText T late 0 rest := by
   have hal := isName_alnum h
   cases name with
   | nil => simp [isName] at h
@@ -259,18 +259,18 @@ theorem entityRef_of_entry {T : Tbl} {n k : PStr} (h : T.toChar.get n = some k) 
 
 /-- text round trip of a table-driven substitution, for any alternation whose entries are well-formed and which
     always catches `&` -/
-theorem html_text_roundtrip_gen (T : Tbl) (ps : List Particle) (rep : PStr → PStr)
+theorem html_text_roundtrip_gen (T : Tbl) (late : Bool) (ps : List Particle) (rep : PStr → PStr)
     (hR : RepOK T rep ps) (h38 : coversChar ps 38 = true) :
-    ∀ l, readText T 0 (reSub ps rep 0 l) = l := by
-  refine reSub_induction ps (motive := fun l => readText T 0 (reSub ps rep 0 l) = l) ?_ ?_ ?_
+    ∀ l, readText T late 0 (reSub ps rep 0 l) = l := by
+  refine reSub_induction ps (motive := fun l => readText T late 0 (reSub ps rep 0 l) = l) ?_ ?_ ?_
   · simp [reSub, readText]
   · intro p rest hp hk _ hfm ih
     obtain ⟨n, hn, hname, _, hback, _⟩ := hR p hp
-    rw [reSub_hit ps _ p rest hk hfm, hn, readText_ref T n _ hname, entityRef_of_entry hback, ih]
+    rw [reSub_hit ps _ p rest hk hfm, hn, readText_ref T late n _ hname, entityRef_of_entry hback, ih]
   · intro c cs hfm ih
     have hc : c ≠ 38 := by
       intro h; subst h; exact coversChar_spec h38 cs hfm
-    rw [reSub_miss ps _ c cs hfm, readText_plain T c _ hc, ih]
+    rw [reSub_miss ps _ c cs hfm, readText_plain T late c _ hc, ih]
 
 theorem not_mem_ref {n : PStr} (h : isName n = true) (x : Nat) (hx : x = 60 ∨ x = 62) : x ∉ ref n := by
   intro hm
